@@ -26,6 +26,12 @@ def run(res):
                  MaxQ=4, **wc.comps(C3, falsy={'c2'}))
     wc.check_and_replay(res, 'c02_create_same_type', Kd, own, depth_all=0, walks=10000 if th else 1000, walk_len=20)
     wc.switch_run(res, 'c02_dup', Kd, 'CreateAttachesInTurn', ('RegisteredIffAttached',))
+    # one component INSTANCE given to several entities (or again to the entity that holds it): every attachment has its own
+    # on_add / on_remove, and the instance listens to the world's events until it leaves the last entity holding it
+    Ksh = wc.base(Acts={'create', 'add', 'remove', 'delete', 'process', 'toggle', 'probe', 'shared'}, Ids={1, 2}, MaxAuto=0, Types=wc.T2,
+                  Bases=wc.BASES2, MaxQ=2, **wc.comps({'c1': ('A', ('on_add', 'on_remove', 'probe')), 'c3': ('B', ('on_remove',))}))
+    wc.check_and_replay(res, 'c02_shared_instance', Ksh, own, depth_all=0, walks=10000 if th else 1500, walk_len=25)
+    wc.switch_run(res, 'c02_shared', Ksh, 'SharedStaysRegistered', ('RegisteredIffAttached',))
     # processors have the same lifecycle (on_add / on_remove without arguments)
     P = wc.procs({'p1': ('P1', ('on_add', 'on_remove')), 'q': ('Q', ('on_remove', 'probe'))}, {'P1': ((), 0), 'Q': ((), 5)})
     K2 = wc.base(Acts={'add', 'remove', 'clear', 'toggle', 'probe', 'proc', 'process'}, Ids={1}, MaxAuto=1, Types=wc.T2, Bases=wc.BASES2,
